@@ -74,6 +74,34 @@ fn has_empty_name(p: &JPath) -> bool {
     features(p).contains(&"empty-name")
 }
 
+/// a literal beyond the double range reads as an infinity, which has no documented spelling:
+/// printing such a path is not judged
+fn has_nonfinite_literal(p: &JPath) -> bool {
+    fn op(o: &Operand) -> bool {
+        match o {
+            Operand::Lit(Lit::Num(n)) => !n.is_finite(),
+            Operand::Lit(_) => false,
+            Operand::Path(_, s) => steps(s),
+        }
+    }
+    fn ex(e: &Expr) -> bool {
+        match e {
+            Expr::Cmp(_, l, r) | Expr::ArithBin(_, l, r) => op(l) || op(r),
+            Expr::ArithUn(_, o) => op(o),
+            Expr::And(l, r) | Expr::Or(l, r) => ex(l) || ex(r),
+            Expr::Exists(_, s) => steps(s),
+            Expr::Arith(_) => false,
+        }
+    }
+    fn steps(s: &[Step]) -> bool {
+        s.iter().any(|st| matches!(st, Step::Filter(e) if ex(e)))
+    }
+    match p {
+        JPath::Steps(s) => steps(s),
+        JPath::Predicate(e) => ex(e),
+    }
+}
+
 fn names_need_no_quoting(p: &JPath) -> bool {
     fn lit_ok(l: &Lit) -> bool {
         match l {
@@ -172,7 +200,7 @@ pub fn totality(ctx: &mut Ctx, raw: &[u8], class: &str, must_reject: bool) {
                 ctx.violation("parse/accepts-leftover", || format!("accepted as {} ; {}", ast, info()));
             }
             if let Some(c) = conv {
-                if names_need_no_quoting(&c) && !refpath::has_arith(&c) && !has_empty_name(&c) {
+                if names_need_no_quoting(&c) && !refpath::has_arith(&c) && !has_empty_name(&c) && !has_nonfinite_literal(&c) {
                     ctx.count("print-parse.roundtrips(raw)");
                     if !same {
                         ctx.violation("print/reparse-differs/raw-input", || format!("printed {:?} does not parse back to the same structure ; {}", printed, info()));
